@@ -13,7 +13,7 @@ BASE_T2 = "goproto.proto.test.TestAllTypes"
 def flavors(base):
     """(type name, dyn) for every implementation of one schema family."""
     fl = [(base, False), (base, True)]
-    if base in (BASE_TE, BASE_T3) or base.startswith("goproto.proto.testeditions.") or base.startswith("goproto.proto.test3."):
+    if base in (BASE_TE, BASE_T3) or base.startswith(("goproto.proto.testeditions.", "goproto.proto.test3.", "goproto.proto.messageset.")):
         fl += [("hybrid." + base, False), ("opaque." + base, False)]
     return fl
 
@@ -40,7 +40,7 @@ def tlaset(xs):
     return "{" + ",".join(str(x) for x in xs) + "}"
 
 
-def drive_hist(res, binary, seed, n, types=None, shards=None, label="hist"):
+def drive_hist(res, binary, seed, n, types=None, shards=None, label="hist", tags="verif", pkgs=PKG):
     """Seeded random histories on the real code (all corpus types and flavours), validated by Trace_PbObject."""
     schema = export_schema(binary, tuple(types or ()))
     env = {"VERIF_TYPES": ",".join(types)} if types else None
@@ -60,17 +60,19 @@ def drive_hist(res, binary, seed, n, types=None, shards=None, label="hist"):
         if i % 701 == 0:
             res.sample(json.dumps({"type": ev["type"], "dyn": ev["dyn"], "steps": ev["steps"]})[:1500])
     if bad:
-        rp = os.path.join(scratch(), "hist-repro.ndjson")
+        # reproduce: execute exactly the rejected histories again on the freshly built code and validate the new recordings
+        # (outputs of default, non-deterministic marshaling may legitimately differ between runs, so the VERDICT is compared)
+        rp = os.path.join(scratch(), "%s-repro.ndjson" % label)
         with open(rp, "w") as fh:
             for i in bad:
                 fh.write(json.dumps({k: v for k, v in events[i].items() if k != "out"}) + "\n")
         harness(binary, ["exec", "hist", rp, rp + ".out"], env=env)
+        _, bad2 = validate_trace("Trace_PbObject", rp + ".out", shards=1, env={"SCHEMA": schema}, timeout=3000)
         again = list(read_ndjson(rp + ".out"))
-        strip = lambda o: {k: v for k, v in (o or {}).items() if k != "stack"}
-        for i, ev2 in zip(bad, again):
-            if strip(ev2.get("out")) != strip(events[i].get("out")):
-                raise vlib.Infra("history %d is not reproducible; refusing to report" % i)
-            res.fail(dict(events[i], _module="hist", _trace="Trace_PbObject", _env_schema=True),
+        if not bad2:
+            raise vlib.Infra("rejected histories %s were accepted when executed again; refusing to report" % bad[:5])
+        for j in bad2:
+            res.fail(dict(again[j], _module="hist", _trace="Trace_PbObject", _tags=tags, _pkgs=list(pkgs), _types=list(types or ())),
                      "trace: PbObject rejects the recorded history (reproduced)")
     res.trace_events += nsteps
     res.evaluations += total
@@ -448,7 +450,7 @@ def c08(res, tier, seed):
     # ... seeded histories on the reflection build ...
     os.environ["VERIF_MIX"] = "mut=10,marshal=2,size=2,unmarshal=4,rt=2,merge=2,clone=2,equal=2,checkinit=2,umerge=1,cat=1"
     try:
-        drive_hist(res, br, seed, 250 if tier == "quick" else 8000, shards=3, label="hist-reflect")
+        drive_hist(res, br, seed, 250 if tier == "quick" else 8000, shards=3, label="hist-reflect", tags="verif,protoreflect")
     finally:
         os.environ.pop("VERIF_MIX", None)
     # ... and both builds (+ dynamicpb inside each) must produce the same deterministic bytes / verdicts / Size / CheckInitialized for the same case
@@ -457,3 +459,36 @@ def c08(res, tier, seed):
                 "(the same specification the fast path is bound to), and the same seeded det/decdet cases run in both builds must give identical "
                 "deterministic bytes, verdicts and CheckInitialized results (memo per case id); dynamicpb types run inside both; distinct = "
                 "(operation, type, flavour, build)")
+
+
+# ============================================================================ C47: MessageSet (legacy builds)
+MODULE_OF["C47"] = "hist"
+HARNESS_PKGS["C47"] = ("msg", "mset")
+MSET = "goproto.proto.messageset.MessageSet"
+MSET_TYPES = [MSET, MSET + ":dyn", "hybrid." + MSET, "opaque." + MSET, "goproto.proto.messageset.MessageSetContainer",
+              "opaque.goproto.proto.messageset.MessageSetContainer", "goproto.proto.messageset.MessageSetContainer:dyn"]
+# items: {type_id 1000, message {08 01}} in both field orders; type id twice (last wins); message twice (concatenated); missing
+# type id; unknown type id 2000; payload with the wrong content for the extension (ill-formed: error); a foreign field inside an
+# item; a foreign field outside items
+MSET_RECS = [[11, 16, 232, 7, 26, 2, 8, 1, 12], [11, 26, 2, 16, 5, 16, 232, 7, 12], [11, 16, 233, 7, 16, 232, 7, 26, 0, 12],
+             [11, 16, 232, 7, 26, 2, 8, 1, 26, 2, 16, 2, 12], [11, 26, 0, 12], [11, 16, 208, 15, 26, 1, 255, 12],
+             [11, 16, 232, 7, 26, 1, 255, 12], [11, 16, 233, 7, 40, 1, 26, 2, 8, 3, 12], [8, 1]]
+
+
+@check("C47")
+def c47(res, tier, seed):
+    b = build_harness(("msg", "mset"), tags="verif,protolegacy")
+    br = build_harness(("msg", "mset"), tags="verif,protolegacy,protoreflect")
+    mc(res, b, "mset", MSET, [1000] if tier == "quick" else [1000, 1001], ["uwire", "rt", "size"] + ([] if tier == "quick" else ["clone", "equal", "marshal"]),
+       2, nobj=2, nest_at=0 if tier == "quick" else 1000, nest_fields=[1],
+       wire_recs=MSET_RECS[:6] if tier == "quick" else MSET_RECS, max_recs=2, also=(br,), laws=["AllWellFormed", "RoundTripLaw"])
+    for bb, lab in ((b, "fast"), (br, "reflect")):
+        os.environ["VERIF_MIX"] = "mut=10,marshal=3,size=3,unmarshal=4,rt=3,merge=1,clone=1,equal=1,checkinit=1,cat=1"
+        try:
+            drive_hist(res, bb, seed, 150 if tier == "quick" else 6000, types=MSET_TYPES, shards=3, label="hist-mset-" + lab, tags="verif,protolegacy" + (",protoreflect" if lab == "reflect" else ""), pkgs=("msg", "mset"))
+        finally:
+            os.environ.pop("VERIF_MIX", None)
+    res.rule = ("tour: every concatenation of up to 2 item records (both field orders, duplicate type id, split payload, missing type id, unknown "
+                "type id, ill-formed payload, foreign fields) decoded, re-marshaled, sized and compared, on the generated fast path and the "
+                "reflection path of a -tags protolegacy build and on all API flavours; driver: random histories on MessageSet and container types "
+                "in both builds; every Marshal output is parsed by the specification's item-format decoder; distinct = (build, flavour, operation)")
